@@ -350,19 +350,19 @@ type fileObs struct {
 }
 
 type metaObs struct {
-	ID       int    `json:"id"`
-	White    bool   `json:"white"`
-	Name     string `json:"name"`
-	Enabled  bool   `json:"enabled"`
-	Count    int    `json:"count"`
-	Sum      uint32 `json:"sum"`
+	ID      int    `json:"id"`
+	White   bool   `json:"white"`
+	Name    string `json:"name"`
+	Enabled bool   `json:"enabled"`
+	Count   int    `json:"count"`
+	Sum     uint32 `json:"sum"`
 	// Age is now - LastUpdated as a class: "never", "young" (less than the
 	// refresh interval) or "due".  The class decides every later scheduling
 	// decision: steps advance the clock by 1 h or by more than the interval,
 	// and maxDepth x 1 h is less than the interval (checked in runSequences),
 	// so within the explored depth a young list only becomes due through a
 	// long step, which makes every list due.
-	Age string `json:"age"`
+	Age      string `json:"age"`
 	lastUpd  time.Time
 	neverUpd bool
 }
